@@ -33,6 +33,9 @@ func (p *Program) findFunc(ct *Contract) *ssa.Function {
 // VerifyContract generates the obligations of one function against its contract.
 func (p *Program) VerifyContract(ct *Contract, tier string) *Unit {
 	name := shortPkg(ct.Pkg) + "." + ct.FuncName
+	if ct.Alt != "" {
+		name += "#" + ct.Alt
+	}
 	u := &Unit{Name: name, Kind: "func", Contract: ct}
 	fn := p.findFunc(ct)
 	if fn == nil || fn.Blocks == nil {
@@ -274,8 +277,10 @@ func (p *Program) genFunc(c *Ctx, fn *ssa.Function, ct *Contract) {
 // frameObligations: every heap location not listed in modifies is unchanged for objects that existed at entry.
 func (p *Program) frameObligations(c *Ctx, fr *Frame, ct *Contract, env *Env, entry, post *State, rg *Term) {
 	type allowed struct {
-		whole  bool
-		points [][]*Term
+		whole      bool
+		wholeConds []*Term // the whole array may change only when one of these holds (conditional modifies)
+		points     [][]*Term
+		conds      []*Term // per point: nil, or the condition under which that point may change
 	}
 	allow := map[string]*allowed{}
 	for _, m := range ct.Modifies {
@@ -297,6 +302,15 @@ func (p *Program) frameObligations(c *Ctx, fr *Frame, ct *Contract, env *Env, en
 				allow["*"] = &allowed{whole: true}
 				return
 			}
+			// "cond ? target : nothing": the target may change only when cond holds in the pre-state
+			var cond *Term
+			if ce, ok := x.(*ECond); ok {
+				if id, ok := ce.B.(*EIdent); !ok || id.Name != "nothing" {
+					panic(specError{"conditional modifies must have the form cond ? target : nothing"})
+				}
+				cond = env.evalBool(ce.C)
+				x = ce.A
+			}
 			names, points := c.modTargets(env, x)
 			for i, n := range names {
 				a := allow[n]
@@ -305,9 +319,14 @@ func (p *Program) frameObligations(c *Ctx, fr *Frame, ct *Contract, env *Env, en
 					allow[n] = a
 				}
 				if points[i] == nil {
-					a.whole = true
+					if cond == nil {
+						a.whole = true
+					} else {
+						a.wholeConds = append(a.wholeConds, cond)
+					}
 				} else {
 					a.points = append(a.points, points[i])
+					a.conds = append(a.conds, cond)
 				}
 			}
 		}()
@@ -333,8 +352,14 @@ func (p *Program) frameObligations(c *Ctx, fr *Frame, ct *Contract, env *Env, en
 		sortN := c.heapSorts[n]
 		refIndexed := strings.HasPrefix(n, "F!") || n == "bigval" || n == "realval" || strings.HasPrefix(n, "cell!") || strings.HasPrefix(n, "elem!") || strings.HasPrefix(n, "map")
 		var goal *Term
+		var wholeExcuse []*Term
+		if a != nil {
+			for _, wc := range a.wholeConds {
+				wholeExcuse = append(wholeExcuse, tNot(wc))
+			}
+		}
 		if !strings.HasPrefix(string(sortN), "(Array ") {
-			goal = tEq(newT, oldT)
+			goal = tImp(tAnd(wholeExcuse...), tEq(newT, oldT))
 		} else {
 			// skolemised: for an arbitrary index (tuple) different from every allowed point
 			depth := 1
@@ -355,8 +380,11 @@ func (p *Program) frameObligations(c *Ctx, fr *Frame, ct *Contract, env *Env, en
 				hyp = append(hyp, tLe(idx[0], alloc0), tGe(idx[0], intLit(0)))
 			}
 			if a != nil {
-				for _, pt := range a.points {
+				for pi, pt := range a.points {
 					var eqs []*Term
+					if pi < len(a.conds) && a.conds[pi] != nil {
+						eqs = append(eqs, a.conds[pi])
+					}
 					for d := range pt {
 						if d < len(idx) {
 							eqs = append(eqs, tEq(idx[d], pt[d]))
@@ -365,6 +393,7 @@ func (p *Program) frameObligations(c *Ctx, fr *Frame, ct *Contract, env *Env, en
 					hyp = append(hyp, tNot(tAnd(eqs...)))
 				}
 			}
+			hyp = append(hyp, wholeExcuse...)
 			goal = tImp(tAnd(hyp...), tEq(nn, no))
 		}
 		c.oblige(&Obligation{Name: fmt.Sprintf("%s/frame#%s", c.unitName, n), Func: c.unitName, Kind: "frame", Guard: rg, Goal: goal,
